@@ -1,6 +1,6 @@
 #!/bin/bash
 # usage: tools/run_all_thorough.sh [ids...]  - runs the thorough tier of every claimed check sequentially, logs timing
-cd /verif
+cd "$(dirname "$0")/.."
 ids="$@"
 [ -z "$ids" ] && ids=$(python3 -c "import json; print(' '.join(c['property_id'] for c in json.load(open('MANIFEST.json'))['checks']))")
 for p in $ids; do
